@@ -1,3 +1,140 @@
-"""placeholder until the mutation corpus is built"""
-def run_for(pid):
-    return 0, {}
+"""Armed-ness self-test (thorough tier): analyse breaking variants and
+behaviour-preserving twins of the *current* tree.
+
+A variant is a scratch copy of /repo/symmray (under a mkdtemp directory outside
+/repo and /verif, removed immediately) with one textual edit applied.  Variants
+are only *analysed* by the same rule code, never imported or executed.
+
+  break : the rule must report at least one finding that the unmodified tree
+          does not have (and, when given, of the expected rule id)
+  twin  : the rule must report nothing new and must not fail closed
+
+An edit whose pattern no longer occurs exactly `count` times in the current
+source is reported as skipped (the repository moved on), not as a failure.
+"""
+
+from __future__ import annotations
+
+import importlib
+import os
+import shutil
+import sys
+import tempfile
+import time
+from concurrent.futures import ProcessPoolExecutor
+
+VERIF = os.path.dirname(os.path.dirname(os.path.abspath(__file__)))
+if VERIF not in sys.path:
+    sys.path.insert(0, VERIF)
+
+REPO = os.environ.get("VERIF_REPO", "/repo")
+
+
+def _apply(text, edits):
+    for (old, new, count) in edits:
+        if text.count(old) != count:
+            return None
+        text = text.replace(old, new)
+    return text
+
+
+def _keys(pid, repo):
+    from engine.main import load
+    from engine.report import run_property
+
+    mod = load(pid)
+    res = run_property(pid, mod.run, mod.EXPLANATION, mod.ASSUMPTIONS, repo=repo, write=False)
+    kind, payload = res
+    if kind != "ok":
+        return ("error", str(payload)[-600:])
+    return ("ok", sorted({f.key() for f in payload.findings}), [f.text() for f in payload.findings])
+
+
+def _one(args):
+    pid, m, base_keys = args
+    tmp = tempfile.mkdtemp(prefix="symmray-verif-variant-")
+    try:
+        files = {}
+        for e in m["edits"]:
+            files.setdefault(e["file"], []).append((e["old"], e["new"], e.get("count", 1)))
+        shutil.copytree(os.path.join(REPO, "symmray"), os.path.join(tmp, "symmray"),
+                        ignore=shutil.ignore_patterns("__pycache__"))
+        for rel, edits in files.items():
+            p = os.path.join(tmp, rel)
+            with open(p, encoding="utf8") as fh:
+                text = fh.read()
+            new = _apply(text, edits)
+            if new is None:
+                return (m["name"], m["kind"], "skipped", "pattern not found in current source", [])
+            try:
+                compile(new, p, "exec")
+            except SyntaxError as ex:
+                return (m["name"], m["kind"], "skipped", f"variant does not compile: {ex}", [])
+            with open(p, "w", encoding="utf8") as fh:
+                fh.write(new)
+        res = _keys(pid, tmp)
+        if res[0] == "error":
+            return (m["name"], m["kind"], "analysis-error", res[1], [])
+        new_keys = [k for k in res[1] if tuple(k) not in base_keys]
+        texts = [t for t, k in zip(res[2], [None] * len(res[2]))]
+        if m["kind"] == "break":
+            want = m.get("rule")
+            hit = [k for k in new_keys if (want is None or k[0].startswith(want))]
+            status = "detected" if hit else "MISSED"
+            return (m["name"], m["kind"], status, "", [list(k) for k in new_keys][:4])
+        status = "silent" if not new_keys else "FALSE-ALARM"
+        return (m["name"], m["kind"], status, "", [list(k) for k in new_keys][:4])
+    finally:
+        shutil.rmtree(tmp, ignore_errors=True)
+
+
+def run_for(pid, verbose=True):
+    corpus = importlib.import_module("selftest.corpus").CORPUS.get(pid, [])
+    if not corpus:
+        return 0, {"selftest": {"variants": 0, "note": "no variants defined for this property"}}
+    t0 = time.time()
+    base = _keys(pid, REPO)
+    if base[0] == "error":
+        print(f"ANALYSIS-ERROR property={pid}: base tree: {base[1]}")
+        return 2, {}
+    base_keys = {tuple(k) for k in base[1]}
+    jobs = [(pid, m, base_keys) for m in corpus]
+    with ProcessPoolExecutor(max_workers=min(16, len(jobs))) as ex:
+        results = list(ex.map(_one, jobs))
+    bad = [r for r in results if r[2] in ("MISSED", "FALSE-ALARM", "analysis-error")]
+    skipped = [r for r in results if r[2] == "skipped"]
+    det = [r for r in results if r[2] == "detected"]
+    sil = [r for r in results if r[2] == "silent"]
+    if verbose:
+        for r in results:
+            print(f"[{pid}] selftest {r[1]:5s} {r[2]:14s} {r[0]}" + (f"  ({r[3][:200]})" if r[3] else ""))
+    extra = {
+        "selftest": {
+            "variants": len(results),
+            "breaking_detected": len(det),
+            "twins_silent": len(sil),
+            "skipped": len(skipped),
+            "failed": len(bad),
+            "wall_s": round(time.time() - t0, 2),
+            "results": [{"name": r[0], "kind": r[1], "status": r[2], "detail": r[3], "new_findings": r[4]}
+                        for r in results],
+        }
+    }
+    if bad:
+        for r in bad:
+            print(f"ANALYSIS-ERROR property={pid}: self-test variant `{r[0]}` ({r[1]}) -> {r[2]} {r[3][:300]}")
+        return 2, extra
+    return 0, extra
+
+
+if __name__ == "__main__":
+    rc = 0
+    from selftest.corpus import CORPUS
+
+    for pid in (sys.argv[1:] or sorted(CORPUS)):
+        r, extra = run_for(pid)
+        s = extra.get("selftest", {})
+        print(f"== {pid}: {s.get('breaking_detected')} detected, {s.get('twins_silent')} twins silent, "
+              f"{s.get('skipped')} skipped, {s.get('failed')} failed, {s.get('wall_s')}s")
+        rc = rc or r
+    sys.exit(rc)
